@@ -327,6 +327,20 @@ func (st *keState) mkJunk(src, ctr int, long bool) []byte {
 	if !long {
 		b = b[:4+8+2]
 	}
+	if ctr == 0 && (src+len(st.msgs))%3 != 0 {
+		// an InitHello-shaped packet whose length trailer sits at the boundaries of its body: parseInitHello reads the
+		// last two bytes as the length of what precedes them (len(body)-2 is the largest valid value)
+		body := len(b) - 4
+		d := (src+len(st.msgs))%8 - 5 // -5 … 2
+		l := body + d
+		if l < 0 {
+			l = 0
+		}
+		if len(b) >= 4+5 {
+			b[len(b)-4], b[len(b)-5] = byte(len(st.msgs)), byte(len(st.msgs)>>8) // keeps the message unique
+		}
+		binary.BigEndian.PutUint16(b[len(b)-2:], uint16(l))
+	}
 	return b
 }
 
